@@ -278,6 +278,13 @@ func gen(t *simhook.Tape, md protoreflect.MessageDescriptor, cfg GenCfg, depth i
 		}
 		return m
 	}
+	if md.FullName() == "google.protobuf.Any" && invalidUTF8 && t.Chance("unencodable-any", 1, 2) {
+		// an Any that cannot be encoded (protobuf-go validates the UTF-8 of its
+		// type_url): every Marshal of a message holding it fails part-way
+		m.Set(md.Fields().ByName("type_url"), protoreflect.ValueOfString("type.googleapis.com/"+invalidStrings[t.Draw("invalid-utf8-which", len(invalidStrings))]))
+		m.Set(md.Fields().ByName("value"), protoreflect.ValueOfBytes([]byte{8, 1}))
+		return m
+	}
 	cl := classify(md)
 	if len(cl.all) == 0 {
 		// a message without declared fields: unknown records are all it can hold
